@@ -136,8 +136,10 @@ def implicit_euler_residual(ip, x0, y0, x1, y1, rho, dt):
     return float(np.sqrt(rx @ rx + ry @ ry))
 
 
-def kkt_classes(problem, scaling, params, x, y, d):
-    """Per-row / per-variable classes of the user-level KKT conditions at (x, y, d) (DESIGN C01)."""
+def kkt_classes(problem, scaling, params, x, y, d, rel_slack=1e-9):
+    """Per-row / per-variable classes of the user-level KKT conditions at (x, y, d) (DESIGN C01).
+    rel_slack: relative slack on the tolerances (re-evaluation rounding; the flow-integration solver stops at
+    an event located by root finding, i.e. at residuum = tol up to the localisation accuracy, and uses 1e-6)."""
     n = len(problem.var_lb)
     m = int(problem.num_cons)
     vw, cw, ow = weights(scaling, n, m)
@@ -157,8 +159,8 @@ def kkt_classes(problem, scaling, params, x, y, d):
         cl = np.asarray(problem.cons_lb, dtype=float)
         cu = np.asarray(problem.cons_ub, dtype=float)
         for i in range(m):
-            T = (tol + atol) * 2.0 ** (-int(cw[i])) * (1 + 1e-9) + 1e-13 * (abs(c[i]) + 1.0)
-            Ty = tol * 2.0 ** (int(cw[i]) - ow) * (1 + 1e-9)
+            T = (tol + atol) * 2.0 ** (-int(cw[i])) * (1 + rel_slack) + 1e-13 * (abs(c[i]) + 1.0)
+            Ty = tol * 2.0 ** (int(cw[i]) - ow) * (1 + rel_slack)
             if c[i] < cl[i] - T:
                 pos = "below"
             elif c[i] > cu[i] + T:
@@ -186,7 +188,7 @@ def kkt_classes(problem, scaling, params, x, y, d):
             pos = "above"
         else:
             pos = "atBoth" if (lo and hi) else ("atLower" if lo else ("atUpper" if hi else "inside"))
-        Ts = tol * 2.0 ** (int(vw[j]) - ow) * (1 + 1e-9) + 1e-12 * (abs(g[j]) + mag[j] + abs(d[j]))
+        Ts = tol * 2.0 ** (int(vw[j]) - ow) * (1 + rel_slack) + 1e-12 * (abs(g[j]) + mag[j] + abs(d[j]))
         vs.append({"pos": pos, "dsign": "pos" if d[j] > 0 else ("neg" if d[j] < 0 else "zero"),
                    "stat": "le" if abs(r[j]) <= Ts else "gt"})
     return {"boundsExact": bounds_exact, "rows": rows, "vars": vs}
